@@ -8,6 +8,7 @@ mod refmath;
 #[macro_use]
 mod runner;
 mod gen;
+mod shadow;
 mod props;
 
 use runner::*;
